@@ -29,6 +29,34 @@ theorem foldlM_ok {σ β : Type} (f : σ → β → M σ) (g : σ → σ) (hf : 
   | nil => intro s; rfl
   | cons x xs ih => intro s; simp [List.foldlM_cons, hf, ih, iter]
 
+theorem foldlM_uadd (max : Nat) : ∀ (l : List Nat) (acc : Nat), acc ≤ max →
+    List.foldlM (fun a x => uadd max a x) acc l
+      = if acc + l.sum ≤ max then Except.ok (acc + l.sum) else Except.error Fail.overflow := by
+  intro l
+  induction l with
+  | nil => intro acc h; simp [h]
+  | cons x xs ih =>
+    intro acc h
+    rw [List.foldlM_cons, List.sum_cons]
+    by_cases hx : acc + x ≤ max
+    · have e : uadd max acc x = Except.ok (acc + x) := by simp [uadd, hx]
+      rw [e, bind_ok, ih _ hx, Nat.add_assoc]
+    · have e : uadd max acc x = Except.error Fail.overflow := by simp [uadd, hx, overflow]
+      have h2 : ¬ acc + (x + xs.sum) ≤ max := by omega
+      rw [e, bind_err]; simp [h2]
+
+/-- `iter.sum::<uN>()`: the checked left fold overflows iff the mathematical sum leaves the range -/
+theorem usum_eq (max : Nat) (l : List Nat) :
+    usum max l = if l.sum ≤ max then Except.ok l.sum else Except.error Fail.overflow := by
+  have := foldlM_uadd max l 0 (Nat.zero_le _)
+  simpa [usum] using this
+
+/-- `(fee as u128 * 1000 + 999)` cannot overflow for a 64-bit fee -/
+theorem fee_rate_fits (a : Nat) (h : a ≤ U64_MAX) : a * 1000 ≤ U128_MAX ∧ a * 1000 + 999 ≤ U128_MAX := by
+  unfold U64_MAX at h
+  unfold U128_MAX
+  omega
+
 theorem range_length (a b : Nat) : (range a b).length = b - a := by simp [range]
 
 end VlsModel.Rs
